@@ -368,7 +368,7 @@ def strip_calls(text, allowed):
     return out
 
 
-def leaks(state, name, allowed_calls, ignore_targets=(), sanitizers=None):
+def leaks(state, name, allowed_calls, ignore_targets=(), sanitizers=None, substring=False):
     """Places where `name` escapes on this path other than through an allowed (encrypting) call:
        attribute stores, |= , return value, yields, and calls that are not in `allowed_calls`.
 
@@ -377,6 +377,11 @@ def leaks(state, name, allowed_calls, ignore_targets=(), sanitizers=None):
        the key."""
     if sanitizers is None:
         sanitizers = allowed_calls
+    if substring:           # `name` is a term (e.g. '<cipher>.gen_key()'), not an identifier
+        def mentions(text, name):
+            return name in text
+    else:
+        mentions = globals()['mentions']
     out = []
     for path, val, line, _ in state.stores:
         if path in ignore_targets:
